@@ -7,6 +7,7 @@ import (
 	"encoding/hex"
 	"encoding/json"
 	"fmt"
+	"golang.org/x/text/unicode/norm"
 	"io"
 	"os"
 	"reflect"
@@ -483,6 +484,40 @@ func (r *histRunner) exec(op string) (outcome string) {
 				nw = len(strings.Split(s, sep))
 			}
 			outcome = fmt.Sprintf("words=%d|%s", nw, errString(err))
+		case "CN":
+			// the valid sentence in a non-canonical but NFKD-equivalent spelling: NFC, ASCII letters
+			// full-width, U+3000 between the words (a normaliser chosen from earlier calls shows here)
+			var b strings.Builder
+			for _, r := range norm.NFC.String(strings.Join(words, "\u3000")) {
+				if r >= 'a' && r <= 'z' {
+					r += 0xFF41 - 'a'
+				}
+				b.WriteRune(r)
+			}
+			outcome = check(b.String())
+		case "CK", "CJ", "GK", "SK":
+			// indexed family: the k-th of many distinct arguments (fills caches, pools and counters keyed
+			// by the argument); size and content derive from k
+			k := 0
+			if len(parts) > 2 {
+				k, _ = strconv.Atoi(parts[2])
+			}
+			d := sha256.Sum256([]byte(fmt.Sprintf("indexed-%d-%d", ml, k)))
+			e := append([]byte(nil), d[:16+4*(k%5)]...)
+			wk := r.m.Words(e, ml)
+			switch kind {
+			case "CK":
+				outcome = check(strings.Join(wk, " "))
+			case "CJ":
+				last := len(wk) - 1
+				wk[last] = r.m.List[ml][(r.m.Dict[ml][wk[last]]+1)%2048]
+				outcome = check(strings.Join(wk, " "))
+			case "GK":
+				s, err := bip39.NewMnemonicByEntropy(e, lg)
+				outcome = s + "|" + errString(err)
+			case "SK":
+				outcome = hex.EncodeToString(bip39.MnemonicToSeed(strings.Join(wk, " "), "pw"))
+			}
 		case "SD":
 			out := bip39.MnemonicToSeed(valid, "pw"+langName(v))
 			r.keepBytes("seed returned by "+op, out)
